@@ -1229,7 +1229,18 @@ func (m *monState) onEnd() {
 	// must not land afterwards with an older snapshot)
 	if w.shutdownReturned > 0 && w.mem != nil && run.sc.Cfg.PSaveErr == 0 {
 		if d := diffStore(w.mem.last(), s); d != "" {
-			run.violate("C11", "r2b", "Shutdown returned at step %d with the store matching the final state, but at the end of the run the last completed save holds something else: %s", w.shutdownReturned, d)
+			// the same distinction as at the return of Shutdown (r2 / r2i, known finding F12)
+			lastIx, newer := w.mem.completed[len(w.mem.completed)-1], -1
+			for _, k := range w.mem.completed {
+				if k > lastIx {
+					newer = k
+				}
+			}
+			if newer >= 0 && diffStore(w.mem.handed[newer].Data, s) == "" {
+				run.violate("C11", "r2i", "end of the run, Shutdown had returned at step %d: the store holds an older snapshot than the reported state: two saves overlapped and completed in inverted order (snapshot #%d, built at step %d, was written after snapshot #%d, built at step %d, which matches the reported state, and the state changed in between): %s", w.shutdownReturned, lastIx, w.mem.handed[lastIx].Step, newer, w.mem.handed[newer].Step, d)
+			} else {
+				run.violate("C11", "r2b", "Shutdown returned at step %d with the store matching the final state, but at the end of the run the last completed save holds something else: %s", w.shutdownReturned, d)
+			}
 		}
 		run.probe("store_checked_after_shutdown")
 	}
